@@ -654,12 +654,30 @@ HANDLERS['operator.neg'] = lambda ip, st, a, kw, node: arith('mul', Poly.const(-
 
 def _h_writes_first(name):
     """np.copyto(dst, src), np.putmask(a, mask, values), np.place(a, mask, values), np.fill_diagonal(a, v): procedures
-    that write into their first argument"""
+    that write into their first argument - executed as the subscript assignment they stand for (a[mask] = values,
+    dst[...] = src), so that the written array carries the new value from here on"""
+    import ast as _ast
+
     def h(ip, st, args, kw, node):
         dst = args[0] if args else kw.get('dst', kw.get('a'))
-        if dst is not None:
-            val = args[-1] if len(args) > 1 else kw.get('src', kw.get('values'))
-            ip.log_write(st, f'numpy.{name}', dst, node, value=val)
+        if dst is None:
+            return NONE
+        try:
+            if name in ('putmask', 'place') and len(node.args) >= 3 and not node.keywords:
+                tgt = _ast.Subscript(value=node.args[0], slice=node.args[1], ctx=_ast.Store())
+                _ast.copy_location(tgt, node)
+                ip.assign(tgt, args[2], st, node)
+                return NONE
+            if name == 'copyto' and len(node.args) >= 2 and not node.keywords:
+                tgt = _ast.Subscript(value=node.args[0], slice=_ast.Constant(value=Ellipsis), ctx=_ast.Store())
+                _ast.copy_location(tgt, node)
+                _ast.copy_location(tgt.slice, node)
+                ip.assign(tgt, args[1], st, node)
+                return NONE
+        except Exception:
+            pass
+        val = args[-1] if len(args) > 1 else kw.get('src', kw.get('values'))
+        ip.log_write(st, f'numpy.{name}', dst, node, value=val)
         return NONE
     return h
 
